@@ -19,7 +19,8 @@ TITLE = 'Feature, match and depth arrays persist bit-exactly as raw little-endia
 GEN = ['FileNames', 'SpecPaths']
 RULE = ('each array case draws a dtype from {float16/32/64, int8..64, uint8..64}, rows 0..6, cols 1..8, random bit patterns '
         '(NaN payloads, inf, -0.0 included), a memory layout (C contiguous, Fortran ordered, strided view, big-endian view), a '
-        'storage (file or tar) and a feature kind; each path case draws nested / dotted / spaced / unicode image names; distinct '
+        'storage (file, tar or depth), a feature kind and a history (first write / overwrite of a same-shape array read before / '
+        'overwrite of a LONGER file); each path case draws nested / dotted / spaced / unicode image names; distinct '
         'non-trivial = distinct (dtype, layout, storage, rows>0) for arrays and distinct names for paths')
 ASSUMPTIONS = [
     'numpy.tofile / tobytes / fromfile / frombuffer are raw row-major dumps of the (converted) array; tarfile stores member bytes verbatim',
@@ -48,7 +49,7 @@ def gen_array(rng):
         for _ in range(rng.randint(0, 2)):
             bits[rng.randrange(len(bits))] = rng.choice(specials)
     return {'op': 'array', 'dtype': dt, 'rows': rows, 'cols': cols, 'bits': bits,
-            'layout': rng.choice(['c', 'f', 'strided', 'bigendian']), 'storage': rng.choice(['file', 'tar', 'depth']), 'rewrite': rng.random() < 0.5,
+            'layout': rng.choice(['c', 'f', 'strided', 'bigendian']), 'storage': rng.choice(['file', 'tar', 'depth']), 'rewrite': rng.choice([False, True, True, 'longer']),
             'kind': rng.choice(KINDS), 'image': rng.choice(NAMES[:8])}
 
 
@@ -116,7 +117,9 @@ def run_real(c):
                     if c.get('rewrite'):
                         # history: another array of the SAME shape (same byte size, same second) was written to this path and
                         # read before; and the array a reader returned is modified in place before the next read
-                        writer(p, np.zeros(a.shape, dtype=dt))
+                        # ... or a LONGER array was there before (re-extraction with fewer keypoints): nothing of it may remain
+                        prev_shape = (a.shape[0] + 3, a.shape[1]) if c['rewrite'] == 'longer' else a.shape
+                        writer(p, np.ones(prev_shape, dtype=dt))
                         old = reader(p, dt.type, c['cols'])
                         if old.size and old.flags.writeable:
                             old.flat[0] = 1
@@ -148,7 +151,8 @@ def run_real(c):
                     p = kr.get_depth_map_fullpath(base, c['image'] + '.depth')
                     from kapture.io.binary import array_to_file, array_from_file
                     if c.get('rewrite'):
-                        array_to_file(p, np.zeros(a.shape, dtype=a.dtype))
+                        prev_shape = (a.shape[0] + 3, a.shape[1]) if c['rewrite'] == 'longer' else a.shape
+                        array_to_file(p, np.ones(prev_shape, dtype=a.dtype))
                         array_from_file(p, dt.type, c['cols'])
                     array_to_file(p, a)
                     raw = open(p, 'rb').read()
